@@ -109,6 +109,19 @@ def one_case(run, cfg):
                 # plateau although the scans agree: not a scaling error
                 run.count("plateau-selection-flip")
                 return
+        # a final range without (at least three) points in contact under the
+        # fitted contact point does not determine the modulus at all: any E
+        # has the same residuals, the two optimisations may stop anywhere
+        def in_contact(ii, pf):
+            rg = np.asarray(ii["fit range"]).astype(bool)
+            xx = np.asarray(ii["tip position"])[rg]
+            return int(np.sum(xx < pf["contact_point"].value))
+        if min(in_contact(ik, pfk), in_contact(i1, pf1)) < 3:
+            run.count("final-range-without-contact(modulus-undetermined)")
+            if abs(pfk["contact_point"].value - pf1["contact_point"].value) \
+                    > tol * float(np.ptp(cols["tip position"])):
+                fail("reported contact point differs between k and 1")
+            return
         Ek, E1 = pfk["E"].value, pf1["E"].value
         rel = abs(Ek / (E1 * k ** (-p)) - 1)
         span = float(np.ptp(cols["tip position"]))
@@ -136,6 +149,66 @@ def one_case(run, cfg):
                 fail("xmin/xmax differ between k and 1", "C11_unscale")
             if not np.array_equal(ck[0]["x"], c1[0]["x"] * k):
                 fail("the optimiser was not given k * abscissa")
+
+
+def failed_then_refit_cases(run):
+    """a fit that cannot be performed (too few points in the range) followed
+    by a fit that only changes the range and relies on the stored initial
+    parameters: the stored contact point guess stays in measured units and
+    the second fit corresponds to the k = 1 fit"""
+    from nanite import model
+    for t, (mk, k) in enumerate([("hertz_para", 0.5), ("hertz_cone", 2.0),
+                                 ("hertz_pyr3s", 0.7)]):
+        pw = fits.POWER[mk]
+        true = fits.default_params(mk, contact_point=8e-7, E=3000.0,
+                                   baseline=2e-11)
+        cols = fits.model_curve(mk, true, n_app=150, n_ret=70)
+        span = float(np.ptp(cols["tip position"]))
+        out = {}
+        cfg = {"failed-then-refit": mk, "k": k}
+        key = f"failed-refit:{mk}:{k}"
+        run.case(cfg, kind="failed-then-refit")
+        try:
+            for kk in (k, 1.0):
+                idnt = curves.make_indentation(cols)
+                p = model.models_available[mk].get_parameter_defaults()
+                p["contact_point"].set(value=9e-7)
+                p["E"].set(value=2000.0 * kk ** (-pw))
+                with warnings.catch_warnings():
+                    warnings.simplefilter("ignore")
+                    idnt.fit_model(model_key=mk, params_initial=p, gcf_k=kk,
+                                   range_type="relative cp",
+                                   range_x=[1e-3, 2e-3], weight_cp=0)
+                    g1 = float(idnt.fit_properties["params_initial"][
+                        "contact_point"].value)
+                    idnt.fit_model(range_type="absolute", range_x=[0, 0])
+                out[kk] = (idnt, g1)
+        except BaseException as e:
+            run.failing(SITE, key, f"{cfg}: raised {type(e).__name__}: {e}",
+                        payload={"kind": "rerun"})
+            continue
+        (ik, gk), (i1, g1) = out[k], out[1.0]
+        why = None
+        if gk != 9e-7:
+            why = (f"after a fit that could not be performed the stored "
+                   f"initial contact point is {gk!r}, the caller gave 9e-07 "
+                   f"(k = {k})")
+        elif not (ik.fit_properties.get("success")
+                  and i1.fit_properties.get("success")):
+            why = "the second fit is not successful"
+        else:
+            pk, p1 = (ik.fit_properties["params_fitted"],
+                      i1.fit_properties["params_fitted"])
+            rel = abs(pk["E"].value / (p1["E"].value * k ** (-pw)) - 1)
+            dcp = abs(pk["contact_point"].value
+                      - p1["contact_point"].value) / span
+            if rel > 1e-6 or dcp > 1e-6:
+                why = (f"second fit: E_k / (E_1 k^-p) - 1 = {rel:.2e}, "
+                       f"contact points differ by {dcp:.2e} of the span")
+        if why:
+            run.failing(SITE, key, f"{cfg}: {why}", payload={"kind": "rerun"},
+                        theorem="C11 (initial guess in measured units for "
+                        "every pass)")
 
 
 def check(run):
@@ -217,6 +290,7 @@ def check(run):
                "cp0": cp0, "seed": i, "true": true, "E0": E0,
                "fix_cp": fix_cp, "cp_bounds": cp_bounds}
         one_case(run, cfg)
+    failed_then_refit_cases(run)
     run.rule = ("metamorphic fits k vs 1 on synthetic power-law curves "
                 "(noise-free: 1e-6; noisy with weighting off: 5e-3) x three "
                 "range types x segments x initial contact points; every "
